@@ -532,6 +532,8 @@ def subject_mechanism(m, symptom, src, failing_subjects=()):
             return "%s-%s-%s" % (base, {"acc1": "loop-accumulator-as-first-operand", "acc2": "loop-accumulator-as-second-operand",
                                         "join2": "redefined-before-join-as-second-operand"}[shape], symptom)
         return "%s-const-%s-%s" % (base, {"cp": "lhs", "pc": "rhs", "cc": "both"}[shape], symptom)
+    if kind == "nest3" and re.fullmatch(r"do-while/(while-top|while-bottom|do-while)/.*", base):
+        return "loop-nested-in-do-while-misstructured"   # the two-level defect (nest:do-while/<loop>) with one more statement inside
     if kind == "latch" and re.fullmatch(r"exit-goto:do-while/(while-top|while-bottom|do-while)", base):
         return "loop-nested-in-do-while-misstructured"   # the same failure as with the other latch shape (nest:do-while/<loop>)
     if kind in G.STRUCT_KINDS:
